@@ -1,7 +1,7 @@
 SPECIFICATION Spec
 CONSTANTS
   Alphabet = {"o", "t", "r", "n", "m2", "m3", "m4"}
-  MaxLen = 6
+  MaxLen = 5
   MaxMarks = 2
 INVARIANTS MachineIsPosAfter Compositional ColumnShortcut RunForm RoundTrip StrictlyMonotoneOffsets UnionsWellFormed SliceMatches
 PROPERTY Monotone
